@@ -186,3 +186,472 @@ Example ex_f08_repaired_vs_asfound :
    | ROk out => map n_id out | _ => [] end)
   = ([1; 0; 2], [0; 1; 2]).
 Proof. vm_compute. reflexivity. Qed.
+
+(* ================================================================================================ *)
+(* Directive effects in the on-disk layout                                                           *)
+(* ================================================================================================ *)
+(* What the flags do once they have reached the block processor.  Model: FlagModel.tool_pack =
+   pack_flags (pack_file, above) + uflags_of (the SQFS_BLK_* bits of sqfs/block.h, GenC17.v) + C08's
+   executable model [pack] of lib/sqfs/src/block_processor/{frontend,block_processor,backend}.c and
+   block_writer.c (begin_file / append / end_file as [file_job], process_block as [work_block] incl. sparse
+   detection and compress-or-store, process_completed_block / process_completed_fragment incl. the
+   fragment hash table and the DONT_COMPRESS inheritance of a fragment block, the io queue, sync /
+   finish, write_data_block / deduplicate_blocks); the data reader [read_back] is the specification of
+   the on-disk format.  Observables of the final state [st]: [p_start st fid] / [p_size st fid k] /
+   [p_frag st fid] = block start, size word k and fragment reference of inode fid; [p_ftab st idx] =
+   fragment table entry; [w_file (p_wr st)] = the output file.  [sw_of n c] = n | (c ? 0 : 1 << 24).
+   Quantified: every checksum function (no hypothesis), every compressor pair meeting the contract of
+   sqfs/compressor.h, every block size the format allows, every initial content of the output, every
+   list of files with arbitrary flags and contents, every schedule of the pool.  Tie: props/C17/flagleg.py
+   (extracted tool_pack vs. the real block processor + block writer, exact). *)
+From SqfsV Require Import Gen.Constants.
+From SqfsV Require Import C08.DedupModel C08.DedupLemmas C08.DedupWriterProofs C08.DedupTheorems.
+From SqfsV Require Import C17.FlagModel C17.FlagSpec C17.FlagWriter C17.FlagFinal C17.FlagPipe
+     C17.FlagTheorems C17.FlagWitness C17.FlagExport.
+Local Close Scope N_scope.
+
+(* ---- flags_do_not_change_content ---------------------------------------------------------------- *)
+(* for EVERY node flag word of every file, with and without -T: packing succeeds, every file reads
+   back byte-exact through the data reader, the bytes before the data area are untouched (instance of
+   C08's dedup_sound through the flag word of the tools) *)
+Theorem flags_do_not_change_content :
+  forall (hashf : list N -> N) (compress : list N -> option (list N))
+         (uncompress : list N -> nat -> option (list N)) (bs half : nat),
+  (forall b c, compress b = Some c -> length c < length b /\ forall n, length b <= n -> uncompress c n = Some b) ->
+  0 < bs -> (N.of_nat bs <= c_SQFS_MAX_BLOCK_SIZE)%N -> 0 < half ->
+  forall (no_tail : bool) (file0 : list N) (l : list (N * list N)) (sched : list nat),
+  exists st,
+    tool_pack hashf compress uncompress bs half no_tail file0 l sched = DedupModel.Ok st /\
+    (forall fid w d, nth_error l fid = Some (w, d) -> read_back uncompress bs st fid (length d) = Some d) /\
+    firstn (length file0) (w_file (p_wr st)) = file0.
+Proof. exact flags_keep_content_l. Qed.
+Print Assumptions flags_do_not_change_content.
+
+(* ---- dont_compress_stored ----------------------------------------------------------------------- *)
+(* a DONT_COMPRESS file: (1) every block is recorded with the uncompressed bit and its own length - or
+   as a hole if it is all zero and IGNORE_SPARSE is not set; (2) the bytes at its block start are the
+   kept blocks themselves, in order; (3) if its tail end got a fragment reference that no earlier file
+   has (i.e. it was not deduplicated: finding F23 below), that fragment block is stored with the
+   uncompressed bit and the tail end sits in it raw at the recorded offset *)
+Theorem dont_compress_stored :
+  forall (hashf : list N -> N) (compress : list N -> option (list N))
+         (uncompress : list N -> nat -> option (list N)) (bs half : nat),
+  (forall b c, compress b = Some c -> length c < length b /\ forall n, length b <= n -> uncompress c n = Some b) ->
+  0 < bs -> (N.of_nat bs <= c_SQFS_MAX_BLOCK_SIZE)%N -> 0 < half ->
+  forall (file0 : list N) (files : list (uflags * list N)) (sched : list nat) (st : proc),
+  pack hashf compress uncompress bs false true half file0 files sched = DedupModel.Ok st ->
+  forall fid fl d, nth_error files fid = Some (fl, d) -> uf_dont_compress fl = true ->
+  (forall k b, nth_error (j_blocks (file_job bs fl d)) k = Some b -> b <> [] ->
+     p_size st fid k = Some (if negb (uf_ignore_sparse fl) && all_zero b then 0%N else sw_of (length b) false)) /\
+  (j_blocks (file_job bs fl d) <> [] ->
+   let D := concat (filter (kept (uf_ignore_sparse fl)) (j_blocks (file_job bs fl d))) in
+   p_start st fid + length D <= length (w_file (p_wr st)) /\
+   slice (w_file (p_wr st)) (p_start st fid) (length D) = D) /\
+  (forall idx o t, p_frag st fid = Some (idx, o) -> j_tail (file_job bs fl d) = Some t ->
+     (forall fid', fid' < fid -> p_frag st fid' <> Some (idx, o)) ->
+     exists loc n,
+       p_ftab st idx = (loc, sw_of n false) /\ o + length t <= n <= bs /\
+       loc + n <= length (w_file (p_wr st)) /\
+       slice (w_file (p_wr st)) (loc + o) (length t) = t).
+Proof. exact dont_compress_stored_l. Qed.
+Print Assumptions dont_compress_stored.
+
+(* the hypothesis of (3) in terms of the input: a tail end that differs from the tail end of every
+   earlier file is never deduplicated *)
+Theorem distinct_tail_not_shared :
+  forall (hashf : list N -> N) (compress : list N -> option (list N))
+         (uncompress : list N -> nat -> option (list N)) (bs half : nat),
+  (forall b c, compress b = Some c -> length c < length b /\ forall n, length b <= n -> uncompress c n = Some b) ->
+  0 < bs -> (N.of_nat bs <= c_SQFS_MAX_BLOCK_SIZE)%N -> 0 < half ->
+  forall (file0 : list N) (files : list (uflags * list N)) (sched : list nat) (st : proc),
+  pack hashf compress uncompress bs false true half file0 files sched = DedupModel.Ok st ->
+  forall fid fl d idx o t,
+  nth_error files fid = Some (fl, d) -> p_frag st fid = Some (idx, o) ->
+  j_tail (file_job bs fl d) = Some t ->
+  (forall fid' fl' d', fid' < fid -> nth_error files fid' = Some (fl', d') ->
+                       j_tail (file_job bs fl' d') <> Some t) ->
+  forall fid', fid' < fid -> p_frag st fid' <> Some (idx, o).
+Proof. exact distinct_tail_unshared_l. Qed.
+Print Assumptions distinct_tail_not_shared.
+
+(* finding F23 (recorded, props/C17/findings.json): without that hypothesis (3) is false - the tail end
+   of a DONT_COMPRESS file that equals an earlier tail end is deduplicated into that file's fragment
+   block, which is stored compressed.  Manual: "the entire fragment block is left uncompressed" *)
+Theorem dont_compress_fragment_unconditional_refuted :
+  exists hashf compress uncompress bs half file0 files sched st fid fl d idx o,
+    (forall b c, compress b = Some c -> length c < length b /\ forall n, length b <= n -> uncompress c n = Some b) /\
+    0 < bs /\ (N.of_nat bs <= c_SQFS_MAX_BLOCK_SIZE)%N /\ 0 < half /\
+    pack hashf compress uncompress bs false true half file0 files sched = DedupModel.Ok st /\
+    nth_error files fid = Some (fl, d) /\ uf_dont_compress fl = true /\
+    p_frag st fid = Some (idx, o) /\ sw_compressed (snd (p_ftab st idx)) = true.
+Proof.
+  destruct f23_exists as (st & E & W1 & W4). destruct bs8_ok as (B1 & B2 & B3).
+  exists const_hash, toy_compress, toy_uncompress, 8, 4096, [], f23_files, [], st,
+         1, (mkfl true false false false), (sevens 6), 0, 0.
+  split; [exact toy_contract|]. split; [exact B1|]. split; [exact B2|]. split; [exact B3|].
+  split; [exact E|]. split; [reflexivity|]. split; [reflexivity|]. split; [exact W1|exact W4].
+Qed.
+Print Assumptions dont_compress_fragment_unconditional_refuted.
+
+(* ---- dont_fragment_no_tail ---------------------------------------------------------------------- *)
+(* a DONT_FRAGMENT file has no fragment reference (0xFFFFFFFF in the inode); if its size is not a
+   multiple of the block size, the short rest is the last data block: block number size / block_size,
+   with its own size word (a hole iff it is all zero and IGNORE_SPARSE is not set) *)
+Theorem dont_fragment_no_tail :
+  forall (hashf : list N -> N) (compress : list N -> option (list N))
+         (uncompress : list N -> nat -> option (list N)) (bs half : nat),
+  (forall b c, compress b = Some c -> length c < length b /\ forall n, length b <= n -> uncompress c n = Some b) ->
+  0 < bs -> (N.of_nat bs <= c_SQFS_MAX_BLOCK_SIZE)%N -> 0 < half ->
+  forall (file0 : list N) (files : list (uflags * list N)) (sched : list nat) (st : proc),
+  pack hashf compress uncompress bs false true half file0 files sched = DedupModel.Ok st ->
+  forall fid fl d, nth_error files fid = Some (fl, d) -> uf_dont_fragment fl = true ->
+  p_frag st fid = None /\
+  forall r, r = skipn (length d / bs * bs) d -> r <> [] ->
+    nth_error (j_blocks (file_job bs fl d)) (length d / bs) = Some r /\
+    length (j_blocks (file_job bs fl d)) = S (length d / bs) /\
+    exists w, p_size st fid (length d / bs) = Some w /\
+              sw_sparse w = negb (uf_ignore_sparse fl) && all_zero r.
+Proof. exact dont_fragment_no_tail_l. Qed.
+Print Assumptions dont_fragment_no_tail.
+
+(* ---- nosparse_materialised ---------------------------------------------------------------------- *)
+(* (1) blocks: the size word of every non-empty block is a hole marker (size field 0, in fact the word
+   0) exactly if the block is all zero and the file does not carry IGNORE_SPARSE - with the flag an
+   all-zero block is written out; *)
+Theorem nosparse_materialised_blocks :
+  forall (hashf : list N -> N) (compress : list N -> option (list N))
+         (uncompress : list N -> nat -> option (list N)) (bs half : nat),
+  (forall b c, compress b = Some c -> length c < length b /\ forall n, length b <= n -> uncompress c n = Some b) ->
+  0 < bs -> (N.of_nat bs <= c_SQFS_MAX_BLOCK_SIZE)%N -> 0 < half ->
+  forall (file0 : list N) (files : list (uflags * list N)) (sched : list nat) (st : proc),
+  pack hashf compress uncompress bs false true half file0 files sched = DedupModel.Ok st ->
+  forall fid fl d k b,
+  nth_error files fid = Some (fl, d) -> nth_error (j_blocks (file_job bs fl d)) k = Some b -> b <> [] ->
+  exists w, p_size st fid k = Some w /\
+            sw_sparse w = negb (uf_ignore_sparse fl) && all_zero b /\
+            (negb (uf_ignore_sparse fl) && all_zero b = true -> w = 0%N).
+Proof. exact sparse_word_l. Qed.
+Print Assumptions nosparse_materialised_blocks.
+
+(* (2) the tail end: all zero without the flag -> no fragment, recorded as a hole in the slot behind
+   the full blocks; otherwise (in particular all zero WITH the flag) a fragment reference into a
+   fragment block that has a non-zero size word, decodes, and holds the tail end *)
+Theorem nosparse_materialised_tail :
+  forall (hashf : list N -> N) (compress : list N -> option (list N))
+         (uncompress : list N -> nat -> option (list N)) (bs half : nat),
+  (forall b c, compress b = Some c -> length c < length b /\ forall n, length b <= n -> uncompress c n = Some b) ->
+  0 < bs -> (N.of_nat bs <= c_SQFS_MAX_BLOCK_SIZE)%N -> 0 < half ->
+  forall (file0 : list N) (files : list (uflags * list N)) (sched : list nat) (st : proc),
+  pack hashf compress uncompress bs false true half file0 files sched = DedupModel.Ok st ->
+  forall fid fl d t,
+  nth_error files fid = Some (fl, d) -> j_tail (file_job bs fl d) = Some t ->
+  if negb (uf_ignore_sparse fl) && all_zero t
+  then p_frag st fid = None /\ p_size st fid (length (j_blocks (file_job bs fl d)) - 1) = Some 0%N
+  else exists idx o data,
+         p_frag st fid = Some (idx, o) /\ idx < p_nfrag st /\
+         sw_sparse (snd (p_ftab st idx)) = false /\
+         decode_block uncompress (w_file (p_wr st)) (fst (p_ftab st idx)) (snd (p_ftab st idx)) bs = Some data /\
+         o + length t <= length data /\ slice data o (length t) = t.
+Proof. exact tail_outcome. Qed.
+Print Assumptions nosparse_materialised_tail.
+
+(* (3) repaired by fix F22 (block_processor.c: no sparse detection on assembled fragment blocks): EVERY
+   entry of the fragment table describes a block that was written - also the all-zero fragment block
+   the zero tail ends of nosparse files make up *)
+Theorem fragment_blocks_always_written :
+  forall (hashf : list N -> N) (compress : list N -> option (list N))
+         (uncompress : list N -> nat -> option (list N)) (bs half : nat),
+  (forall b c, compress b = Some c -> length c < length b /\ forall n, length b <= n -> uncompress c n = Some b) ->
+  0 < bs -> (N.of_nat bs <= c_SQFS_MAX_BLOCK_SIZE)%N -> 0 < half ->
+  forall (file0 : list N) (files : list (uflags * list N)) (sched : list nat) (st : proc),
+  pack hashf compress uncompress bs false true half file0 files sched = DedupModel.Ok st ->
+  forall idx, idx < p_nfrag st ->
+  sw_sparse (snd (p_ftab st idx)) = false /\
+  exists data, decode_block uncompress (w_file (p_wr st)) (fst (p_ftab st idx)) (snd (p_ftab st idx)) bs = Some data /\
+               0 < length data <= bs.
+Proof. exact frag_table_written. Qed.
+Print Assumptions fragment_blocks_always_written.
+
+(* the worker as found (sparse detection also on fragment blocks: first argument false) marks an all-zero
+   fragment block sparse, i.e. it is never written; the repaired call (true) does not *)
+Example ex_f22_worker :
+  pb_sparse (work_block const_hash toy_compress false false false false (repeat 0%N 5)) = true /\
+  pb_sparse (work_block const_hash toy_compress true false false false (repeat 0%N 5)) = false.
+Proof. exact f22_worker. Qed.
+
+(* ---- dont_dedup_unshared ------------------------------------------------------------------------ *)
+(* [disk_data hashf compress bs fl d]: the bytes the blocks of a file leave in the output (compressed or
+   raw, holes nothing).  A DONT_DEDUPLICATE file that writes at least one block starts behind the end of
+   every earlier file that writes one, behind the initial content, and inside the output; *)
+Theorem dont_dedup_unshared_blocks :
+  forall (hashf : list N -> N) (compress : list N -> option (list N))
+         (uncompress : list N -> nat -> option (list N)) (bs half : nat),
+  (forall b c, compress b = Some c -> length c < length b /\ forall n, length b <= n -> uncompress c n = Some b) ->
+  0 < bs -> (N.of_nat bs <= c_SQFS_MAX_BLOCK_SIZE)%N -> 0 < half ->
+  forall (file0 : list N) (files : list (uflags * list N)) (sched : list nat) (st : proc),
+  pack hashf compress uncompress bs false true half file0 files sched = DedupModel.Ok st ->
+  forall fid1 fid2 fl1 d1 fl2 d2,
+  fid1 < fid2 -> nth_error files fid1 = Some (fl1, d1) -> nth_error files fid2 = Some (fl2, d2) ->
+  uf_dont_dedup fl2 = true ->
+  disk_data hashf compress bs fl1 d1 <> [] -> disk_data hashf compress bs fl2 d2 <> [] ->
+  p_start st fid1 + length (disk_data hashf compress bs fl1 d1) <= p_start st fid2.
+Proof. exact dont_dedup_blocks_l. Qed.
+Print Assumptions dont_dedup_unshared_blocks.
+
+Theorem dont_dedup_unshared_start :
+  forall (hashf : list N -> N) (compress : list N -> option (list N))
+         (uncompress : list N -> nat -> option (list N)) (bs half : nat),
+  (forall b c, compress b = Some c -> length c < length b /\ forall n, length b <= n -> uncompress c n = Some b) ->
+  0 < bs -> (N.of_nat bs <= c_SQFS_MAX_BLOCK_SIZE)%N -> 0 < half ->
+  forall (file0 : list N) (files : list (uflags * list N)) (sched : list nat) (st : proc),
+  pack hashf compress uncompress bs false true half file0 files sched = DedupModel.Ok st ->
+  forall fid fl d, nth_error files fid = Some (fl, d) -> uf_dont_dedup fl = true ->
+  disk_data hashf compress bs fl d <> [] ->
+  length file0 <= p_start st fid /\
+  p_start st fid + length (disk_data hashf compress bs fl d) <= length (w_file (p_wr st)).
+Proof. exact dont_dedup_start_l. Qed.
+Print Assumptions dont_dedup_unshared_start.
+
+(* its tail end is appended without lookup: every fragment of an earlier file lies in an earlier
+   fragment block or in the same block and ends at or before it (so nothing is shared with a file
+   packed before; a LATER file may still be deduplicated against it - example ex_dont_dedup) *)
+Theorem dont_dedup_unshared_tail :
+  forall (hashf : list N -> N) (compress : list N -> option (list N))
+         (uncompress : list N -> nat -> option (list N)) (bs half : nat),
+  (forall b c, compress b = Some c -> length c < length b /\ forall n, length b <= n -> uncompress c n = Some b) ->
+  0 < bs -> (N.of_nat bs <= c_SQFS_MAX_BLOCK_SIZE)%N -> 0 < half ->
+  forall (file0 : list N) (files : list (uflags * list N)) (sched : list nat) (st : proc),
+  pack hashf compress uncompress bs false true half file0 files sched = DedupModel.Ok st ->
+  forall fid fl d i o,
+  nth_error files fid = Some (fl, d) -> uf_dont_dedup fl = true -> p_frag st fid = Some (i, o) ->
+  forall fid' fl' d' i' o' t', fid' < fid -> nth_error files fid' = Some (fl', d') ->
+    p_frag st fid' = Some (i', o') -> j_tail (file_job bs fl' d') = Some t' ->
+    i' < i \/ (i' = i /\ o' + length t' <= o).
+Proof. exact dont_dedup_tail_l. Qed.
+Print Assumptions dont_dedup_unshared_tail.
+
+(* ---- layout_follows_order ----------------------------------------------------------------------- *)
+(* two files that both write blocks, in packing order: the later one lies behind the earlier one, or
+   deduplication was allowed for it (and it starts inside the output: it shares earlier storage) *)
+Theorem layout_follows_order :
+  forall (hashf : list N -> N) (compress : list N -> option (list N))
+         (uncompress : list N -> nat -> option (list N)) (bs half : nat),
+  (forall b c, compress b = Some c -> length c < length b /\ forall n, length b <= n -> uncompress c n = Some b) ->
+  0 < bs -> (N.of_nat bs <= c_SQFS_MAX_BLOCK_SIZE)%N -> 0 < half ->
+  forall (file0 : list N) (files : list (uflags * list N)) (sched : list nat) (st : proc),
+  pack hashf compress uncompress bs false true half file0 files sched = DedupModel.Ok st ->
+  forall fid1 fid2 fl1 d1 fl2 d2,
+  fid1 < fid2 -> nth_error files fid1 = Some (fl1, d1) -> nth_error files fid2 = Some (fl2, d2) ->
+  disk_data hashf compress bs fl1 d1 <> [] -> disk_data hashf compress bs fl2 d2 <> [] ->
+  p_start st fid1 + length (disk_data hashf compress bs fl1 d1) <= p_start st fid2 \/
+  (uf_dont_dedup fl2 = false /\ p_start st fid2 < length (w_file (p_wr st))).
+Proof. exact layout_pair_l. Qed.
+Print Assumptions layout_follows_order.
+
+(* the strong form: there is a chronological log (newest first) of everything the block writer stored -
+   one entry (LFile fid, block start, bytes on disk) per file that writes blocks, in packing order, one
+   (LFrag idx, location, size) per written fragment block - such that every entry starts exactly at the
+   end of the output as the older entries left it ([wm]: the maximum of their ends, initially the
+   length of the initial content), or is a file without DONT_DEDUPLICATE that starts before that mark;
+   and the output ends where the log says: nothing is wasted, nothing is out of order.
+   ([fl_of bs files fid]: the flags of file fid.) *)
+Theorem layout_log :
+  forall (hashf : list N -> N) (compress : list N -> option (list N))
+         (uncompress : list N -> nat -> option (list N)) (bs half : nat),
+  (forall b c, compress b = Some c -> length c < length b /\ forall n, length b <= n -> uncompress c n = Some b) ->
+  0 < bs -> (N.of_nat bs <= c_SQFS_MAX_BLOCK_SIZE)%N -> 0 < half ->
+  forall (file0 : list N) (files : list (uflags * list N)) (sched : list nat) (st : proc),
+  pack hashf compress uncompress bs false true half file0 files sched = DedupModel.Ok st ->
+  exists log : list lent,
+    LogOk (length file0) (fun fid => uf_dont_dedup (fl_of bs files fid)) log /\
+    length (w_file (p_wr st)) = wm (length file0) log /\
+    StronglySorted gt (log_fids log) /\
+    (forall fid fl d, nth_error files fid = Some (fl, d) -> disk_data hashf compress bs fl d <> [] ->
+       In {| le_kind := LFile fid; le_loc := p_start st fid;
+             le_len := length (disk_data hashf compress bs fl d) |} log) /\
+    (forall e fid, In e log -> le_kind e = LFile fid ->
+       exists fl d, nth_error files fid = Some (fl, d) /\ disk_data hashf compress bs fl d <> [] /\
+                    le_loc e = p_start st fid /\ le_len e = length (disk_data hashf compress bs fl d)) /\
+    (forall e idx, In e log -> le_kind e = LFrag idx ->
+       idx < p_nfrag st /\ 0 < le_len e /\
+       exists w, p_ftab st idx = (le_loc e, w) /\ sw_size w = le_len e).
+Proof. exact layout_log_l. Qed.
+Print Assumptions layout_log.
+
+(* when the block writer shares: at the end of a file ([WOpen]: [pre] / [hist] = output and block
+   history when the file's first block arrived, [cur] = the blocks stored since) deduplicate_blocks hands
+   out the fresh location, or - only without DONT_DEDUPLICATE - the offset of an earlier block where a run
+   with the same size words, checksums AND bytes starts; the output then ends at max (old end, end of
+   that run) *)
+Theorem share_only_identical_run :
+  forall half, 0 < half ->
+  forall base w claims pre hist cur dd evs w' loc evs',
+  WOpen base w claims pre hist cur -> all_stored cur ->
+  deduplicate_blocks false half w dd evs = WOk w' loc evs' ->
+  (cur = [] -> w_file w' = pre /\ loc = 0) /\
+  (cur <> [] ->
+   (loc = length pre /\ w_file w' = pre ++ cat cur) \/
+   (dd = false /\ loc < length pre /\
+    length (w_file w') = Nat.max (length pre) (loc + length (cat cur)) /\
+    exists i, i < length hist /\ loc = bi_off (nth i hist dflt_bi) /\
+              hashes_match (firstn (length cur) (skipn i (w_blocks w))) (infos (length pre) cur) = true /\
+              slice (w_file w) loc (length (cat cur)) = cat cur)).
+Proof. exact dedup_loc. Qed.
+Print Assumptions share_only_identical_run.
+
+(* ---- no_tail_packing_only_large, end to end ------------------------------------------------------- *)
+(* -T: a file of at most one block is handed to the block processor with exactly the flags it has
+   without -T; a larger file gets DONT_FRAGMENT, keeps every other flag, and ends without a fragment *)
+Theorem no_tail_packing_effect :
+  forall (hashf : list N -> N) (compress : list N -> option (list N))
+         (uncompress : list N -> nat -> option (list N)) (bs half : nat),
+  (forall b c, compress b = Some c -> length c < length b /\ forall n, length b <= n -> uncompress c n = Some b) ->
+  0 < bs -> (N.of_nat bs <= c_SQFS_MAX_BLOCK_SIZE)%N -> 0 < half ->
+  forall (file0 : list N) (l : list (N * list N)) (sched : list nat) (st : proc),
+  tool_pack hashf compress uncompress bs half true file0 l sched = DedupModel.Ok st ->
+  forall fid w d, nth_error l fid = Some (w, d) ->
+  (length d <= bs -> tool_flags true bs w d = tool_flags false bs w d) /\
+  (bs < length d ->
+   p_frag st fid = None /\
+   uf_dont_fragment (tool_flags true bs w d) = true /\
+   uf_dont_compress (tool_flags true bs w d) = uf_dont_compress (uflags_of w) /\
+   uf_dont_dedup (tool_flags true bs w d) = uf_dont_dedup (uflags_of w) /\
+   uf_ignore_sparse (tool_flags true bs w d) = uf_ignore_sparse (uflags_of w) /\
+   uf_dont_hash (tool_flags true bs w d) = uf_dont_hash (uflags_of w)).
+Proof. exact no_tail_effect_l. Qed.
+Print Assumptions no_tail_packing_effect.
+
+(* ---- export_table_correct ------------------------------------------------------------------------- *)
+(* --exportable (cfg->exportable) on the whole-image model of coq/Image (sqfs_serialize_fstree +
+   dir_writer.c export table + sqfs_writer_finish): without it the image has no export table; with it the
+   table read through the super block has one slot per inode and slot k-1 holds the inode reference of
+   inode k for the root and for every inode that is an entry of a directory (= reachable from the root) *)
+Theorem export_table_correct : forall compress uncompress, comp_contract compress uncompress ->
+  forall limit, (limit <= 65535)%N ->
+  forall cfg inp w,
+  FinishModel.write_image compress limit cfg inp = Res.Ok w ->
+  ImageProofs.image_domain cfg inp = true -> ImageProofs.image_fits w = true ->
+  let b := FinishModel.image_bytes w in
+  let t := FinishModel.in_tree inp in
+  (FinishModel.c_exportable cfg = false ->
+   ReaderModel.read_export uncompress b (FinishModel.w_super w) = Some None) /\
+  (FinishModel.c_exportable cfg = true -> exists l,
+     ReaderModel.read_export uncompress b (FinishModel.w_super w) = Some (Some l) /\
+     Common.lenN l = Res.nlen t /\
+     forall c, c = Res.nlen t \/ In c (ExportInv.kids_upto t (length t)) ->
+               nth (N.to_nat (c - 1)) l DirModel.U64MAX
+               = TreeModel.ref_of (TreeModel.si_refs (FinishModel.w_img w)) c).
+Proof. exact export_table_correct_l. Qed.
+Print Assumptions export_table_correct.
+
+(* ---- non-vacuity of the directive theorems ------------------------------------------------------ *)
+(* block size 8, toy run-length compressor (>= 5 equal bytes shrink to 4 bytes), constant checksum;
+   the compressor meets the contract, the block size is allowed *)
+Example ex_directive_hyps :
+  (forall b c, toy_compress b = Some c ->
+     length c < length b /\ forall n, length b <= n -> toy_uncompress c n = Some b) /\
+  0 < 8 /\ (N.of_nat 8 <= c_SQFS_MAX_BLOCK_SIZE)%N /\ 0 < 4096.
+Proof. exact (conj toy_contract bs8_ok). Qed.
+
+(* dont_compress: 19 sevens with the flag -> two raw blocks (word 8 | 1<<24) although they would shrink
+   to 4 bytes; the 3 byte tail end opens fragment block 0 (reference not shared with an earlier file),
+   a normal file joins it, the block is stored raw (5 | 1<<24) although 5 sevens would shrink; the same
+   19 sevens without the flag are two compressed blocks of 4 bytes *)
+Example ex_dont_compress :
+  match run ex_dc_files with
+  | DedupModel.Ok st =>
+      p_size st 0 0 = Some (sw_of 8 false) /\ p_size st 0 1 = Some (sw_of 8 false) /\
+      p_start st 0 = 0 /\ slice (w_file (p_wr st)) 0 16 = sevens 16 /\
+      p_frag st 0 = Some (0, 0) /\ p_frag st 1 = Some (0, 3) /\ p_frag st 2 = Some (1, 0) /\
+      p_ftab st 0 = (24, sw_of 5 false) /\ slice (w_file (p_wr st)) 24 5 = sevens 5 /\
+      p_size st 2 0 = Some (sw_of 4 true) /\ p_size st 2 1 = Some (sw_of 4 true)
+  | _ => False
+  end.
+Proof. exact ex_dc. Qed.
+
+(* F23 in numbers, and the same two files when the second one also carries DONT_DEDUPLICATE *)
+Example ex_f23 :
+  match run f23_files with
+  | DedupModel.Ok st => p_frag st 1 = Some (0, 0) /\ p_frag st 0 = Some (0, 0) /\
+             p_ftab st 0 = (0, sw_of 4 true) /\ sw_compressed (snd (p_ftab st 0)) = true
+  | _ => False
+  end.
+Proof. exact f23_witness. Qed.
+
+Example ex_f23_avoided :
+  match run [(mkfl false false false false, sevens 6); (mkfl true false true false, sevens 6)] with
+  | DedupModel.Ok st => p_frag st 0 = Some (0, 0) /\ p_frag st 1 = Some (1, 0) /\
+             p_ftab st 0 = (0, sw_of 4 true) /\ p_ftab st 1 = (4, sw_of 6 false)
+  | _ => False
+  end.
+Proof. exact f23_avoided. Qed.
+
+(* dont_fragment: 11 bytes -> block 0 and a 3 byte block 1, no fragment; without the flag one block and
+   fragment (0, 0) (and its first block is shared with the first file) *)
+Example ex_dont_fragment :
+  match run ex_df_files with
+  | DedupModel.Ok st =>
+      p_frag st 0 = None /\ p_size st 0 1 = Some (sw_of 3 false) /\ p_nwords st 0 = 2 /\
+      p_frag st 1 = Some (0, 0) /\ p_nwords st 1 = 1 /\ p_start st 1 = 0
+  | _ => False
+  end.
+Proof. exact ex_df. Qed.
+
+(* nosparse: 8 data bytes, 8 zero bytes, 3 zero bytes.  With the flag the zero block is stored
+   (compressed to 4 bytes) and the zero tail end makes up an all-zero fragment block that IS written (F22);
+   without it both are holes and there is no fragment.  Both read back *)
+Example ex_nosparse :
+  match run ex_ns_files with
+  | DedupModel.Ok st =>
+      p_size st 0 1 = Some (sw_of 4 true) /\ p_frag st 0 = Some (0, 0) /\
+      p_nfrag st = 1 /\ sw_sparse (snd (p_ftab st 0)) = false /\
+      p_size st 1 1 = Some 0%N /\ p_size st 1 2 = Some 0%N /\ p_frag st 1 = None /\
+      read_back toy_uncompress 8 st 0 19 = Some ([1; 2; 3; 4; 5; 6; 7; 8]%N ++ repeat 0%N 11) /\
+      read_back toy_uncompress 8 st 1 19 = Some ([1; 2; 3; 4; 5; 6; 7; 9]%N ++ repeat 0%N 11)
+  | _ => False
+  end.
+Proof. exact ex_ns. Qed.
+
+(* dont_deduplicate: three copies of one file; the flagged second copy gets fresh blocks at 8 and a fresh
+   fragment (0, 2); the third copy shares its block with the first and its tail end with the second *)
+Example ex_dont_dedup :
+  match run ex_dd_files with
+  | DedupModel.Ok st =>
+      p_start st 0 = 0 /\ p_frag st 0 = Some (0, 0) /\
+      p_start st 1 = 8 /\ p_frag st 1 = Some (0, 2) /\
+      p_start st 2 = 0 /\ p_frag st 2 = Some (0, 2)
+  | _ => False
+  end.
+Proof. exact ex_dd. Qed.
+
+(* the hypotheses of share_only_identical_run in a concrete state: history [X], then the file X *)
+Example ex_share_state :
+  let X := {| pb_sparse := false; pb_compressed := false; pb_chk := 0%N; pb_data := [1; 2; 3]%N |} in
+  let w := {| w_file := [1; 2; 3; 1; 2; 3]%N;
+              w_blocks := [info_of 0 X; info_of 3 X]; w_fstart := 1 |} in
+  WOpen 0 w [] [1; 2; 3]%N [info_of 0 X] [X] /\ all_stored [X] /\
+  deduplicate_blocks false 4096 w false []
+  = WOk {| w_file := [1; 2; 3]%N; w_blocks := [info_of 0 X]; w_fstart := 1 |} 0 [EvTrunc 3].
+Proof. exact ex_share. Qed.
+
+(* -T through the flag word: 7 bytes keep their fragment, 9 bytes (flag word 1 = dont_compress) lose
+   it and get a one byte block instead *)
+Example ex_no_tail_packing :
+  match tool_pack const_hash toy_compress toy_uncompress 8 4096 true []
+                  [(0%N, [1; 2; 3; 4; 5; 6; 7]%N); (1%N, [1; 2; 3; 4; 5; 6; 7; 8; 9]%N)] [] with
+  | DedupModel.Ok st => p_frag st 0 = Some (0, 0) /\ p_frag st 1 = None /\
+             p_size st 1 1 = Some (sw_of 1 false)
+  | _ => False
+  end.
+Proof. exact ex_no_tail. Qed.
+
+(* export table: the 96 inode image of Image/Example.v (zero-run-length compressor, exportable) is in the domain
+   of the theorem; Properties_C03.ex_image_reads_back shows its table read back = all 96 inode references *)
+Example ex_export_table :
+  comp_contract (TreeModel.img_compress 3) (TreeModel.img_uncompress 3) /\
+  FinishModel.c_exportable Image.Example.ex_cfg = true /\
+  ImageProofs.image_domain Image.Example.ex_cfg Image.Example.ex_inp = true /\
+  exists w, FinishModel.write_image (TreeModel.img_compress 3) GenC01.c_id_table_limit
+                                    Image.Example.ex_cfg Image.Example.ex_inp = Res.Ok w /\
+            ImageProofs.image_fits w = true.
+Proof. exact ex_export_hyps_l. Qed.
